@@ -34,6 +34,59 @@
 
 #include "EbLog.h"
 
+#ifdef SVT_AV1_VERIF
+/* C20 test-only hook: per-block coding-tool usage counters of the block parser, read through
+ * svt_av1_verif_dec_toolcount().  Indices: 0 blocks, 1 inter blocks, 2 palette Y, 3 palette UV, 4 intra block copy,
+ * 5 OBMC, 6 local warp, 7 filter intra, 8 chroma-from-luma, 9 inter-intra, 10 inter-intra wedge, 11 compound blocks,
+ * 12 wedge compound, 13 difference-weighted compound, 14 distance-weighted compound, 15 cdef indices read,
+ * 16 cdef indices selecting a non-zero strength, 17 loop-restoration units parsed, 18 units with a filter (not NONE). */
+#define SVT_VERIF_TOOLCOUNT_N 19
+static uint64_t svt_verif_toolcount[SVT_VERIF_TOOLCOUNT_N];
+#define SVT_VERIF_TC(i) __sync_fetch_and_add(&svt_verif_toolcount[i], 1)
+void svt_av1_verif_dec_toolcount(uint64_t *out, int n, int reset) {
+    for (int i = 0; i < SVT_VERIF_TOOLCOUNT_N; i++) {
+        if (out && i < n)
+            out[i] = __sync_fetch_and_add(&svt_verif_toolcount[i], 0);
+        if (reset)
+            __sync_fetch_and_and(&svt_verif_toolcount[i], 0);
+    }
+}
+static void svt_verif_count_block(const BlockModeInfo *mi, int is_chroma_ref) {
+    SVT_VERIF_TC(0);
+    if (mi->use_intrabc)
+        SVT_VERIF_TC(4);
+    if (mi->ref_frame[0] > INTRA_FRAME) {
+        SVT_VERIF_TC(1);
+        if (mi->motion_mode == OBMC_CAUSAL)
+            SVT_VERIF_TC(5);
+        if (mi->motion_mode == WARPED_CAUSAL)
+            SVT_VERIF_TC(6);
+        if (mi->ref_frame[1] == INTRA_FRAME) {
+            SVT_VERIF_TC(9);
+            if (is_interintra_wedge_used(mi->sb_type) && mi->interintra_mode_params.wedge_interintra)
+                SVT_VERIF_TC(10);
+        } else if (mi->ref_frame[1] > INTRA_FRAME) {
+            SVT_VERIF_TC(11);
+            if (mi->inter_inter_compound.type == COMPOUND_WEDGE)
+                SVT_VERIF_TC(12);
+            if (mi->inter_inter_compound.type == COMPOUND_DIFFWTD)
+                SVT_VERIF_TC(13);
+            if (mi->inter_inter_compound.type == COMPOUND_DISTWTD)
+                SVT_VERIF_TC(14);
+        }
+    } else if (!mi->use_intrabc) {
+        if (mi->palette_size[0] > 0)
+            SVT_VERIF_TC(2);
+        if (mi->palette_size[1] > 0)
+            SVT_VERIF_TC(3);
+        if (mi->filter_intra_mode_info.use_filter_intra)
+            SVT_VERIF_TC(7);
+        if (is_chroma_ref && mi->uv_mode == UV_CFL_PRED) /* uv_mode is only parsed for chroma reference blocks */
+            SVT_VERIF_TC(8);
+    }
+}
+#endif
+
 #if ENABLE_ENTROPY_TRACE
 FILE *temp_fp;
 int   enable_dump;
@@ -344,6 +397,12 @@ void read_cdef(ParseCtxt *parse_ctxt, PartitionInfo *xd) {
     if (cdef_strength[index] == -1) {
         cdef_strength[index] = svt_read_literal(
             r, parse_ctxt->frame_header->cdef_params.cdef_bits, ACCT_STR);
+#ifdef SVT_AV1_VERIF
+        SVT_VERIF_TC(15);
+        if (parse_ctxt->frame_header->cdef_params.cdef_y_strength[cdef_strength[index]] ||
+            parse_ctxt->frame_header->cdef_params.cdef_uv_strength[cdef_strength[index]])
+            SVT_VERIF_TC(16);
+#endif
         /* Populate to nearby 64x64s if needed based on h4 & w4 */
         if (parse_ctxt->seq_header->sb_size == BLOCK_128X128) {
             int w4 = mi_size_wide[mbmi->sb_type];
@@ -2477,6 +2536,9 @@ void parse_block(EbDecHandle *dec_handle, ParseCtxt *parse_ctx, uint32_t mi_row,
     mode->sb_type = subsize;
 
     mode_info(dec_handle, &part_info, parse_ctx);
+#ifdef SVT_AV1_VERIF
+    svt_verif_count_block(mode, part_info.is_chroma_ref);
+#endif
 
     /* Initialize block or force splt block tu count to 0*/
     ZERO_ARRAY(parse_ctx->num_tus[AOM_PLANE_Y], 4);
@@ -2824,6 +2886,11 @@ void read_lr_unit(ParseCtxt *parse_ctxt, int32_t plane, RestorationUnitInfo *lr_
         break;
     default: assert(lr_unit->restoration_type == RESTORE_NONE); break;
     }
+#ifdef SVT_AV1_VERIF
+    SVT_VERIF_TC(17);
+    if (lr_unit->restoration_type != RESTORE_NONE)
+        SVT_VERIF_TC(18);
+#endif
 }
 
 void read_lr(EbDecHandle *dec_handle, ParseCtxt *parse_ctx, int32_t row, int32_t col) {
